@@ -1107,6 +1107,7 @@ func TestReplay(t *testing.T) {
 		"inflight":   replayInflight,
 		"snaprace":   replaySnapRace,
 		"gcrace":     replayGCRace,
+		"freeze":     replayFreeze,
 		"workload": func(raw json.RawMessage) *kit.Failure {
 			var w Workload
 			if err := json.Unmarshal(raw, &w); err != nil {
